@@ -73,6 +73,26 @@ pub fn vk_image(vk: &VK) -> VkImage {
     }
 }
 
+/// Digest of the whole proving key: the stored parts and (through the `verif_derived_parts`
+/// hook) everything `ProvingKey::read` recomputes, including the evaluator's rendering.
+pub fn pk_full_digest(pk: &PK) -> String {
+    use ff::PrimeField;
+    let (parts, ev) = pk.verif_derived_parts();
+    let mut st = blake2b_simd::Params::new().hash_length(32).to_state();
+    for (name, polys) in parts {
+        st.update(name.as_bytes());
+        st.update(&(polys.len() as u64).to_le_bytes());
+        for p in polys {
+            st.update(&(p.len() as u64).to_le_bytes());
+            for v in p {
+                st.update(v.to_repr().as_ref());
+            }
+        }
+    }
+    st.update(ev.as_bytes());
+    hex(st.finalize().as_bytes())
+}
+
 pub struct FamSubject {
     pub fp: FamParams,
     pub seed: u64,
@@ -167,6 +187,7 @@ fn read_pk(bytes: &[u8], fmt: SerdeFormat, fp: &FamParams) -> Result<Result<PK, 
 pub fn determinism(ctx: &mut Ctx, s: &FamSubject, reps: usize) {
     let base = vk_image(&s.vk);
     let base_pk = s.pk.to_bytes(SerdeFormat::RawBytes);
+    let base_full = pk_full_digest(&s.pk);
     for &t in POOLS.iter() {
         for rep in 0..reps {
             ctx.count(&format!("keygen:pool{t}"));
@@ -192,8 +213,25 @@ pub fn determinism(ctx: &mut Ctx, s: &FamSubject, reps: usize) {
                     json!({"subject": s.desc(), "threads": t, "rep": rep}),
                 );
             }
+            if pk_full_digest(&pk) != base_full {
+                ctx.oracle_fail(
+                    "keygen-nondeterministic:pk-derived",
+                    "two key generations for the same parameters and circuit gave proving keys whose recomputed parts differ",
+                    json!({"subject": s.desc(), "threads": t, "rep": rep}),
+                );
+            }
             if rep == 0 {
                 perm_case(ctx, s, &pk, t);
+                // the key generated under this pool proves, and the baseline vk accepts
+                let wseed = s.seed + 23;
+                match fam_prove(&s.params, &pk, &s.fp, wseed).map(|p| fam_verify(&s.params, &s.vk, &s.fp, wseed, &p)) {
+                    Ok(Ok(true)) => ctx.count("proof:per-pool-key"),
+                    other => ctx.oracle_fail(
+                        "pool-key-not-interchangeable",
+                        "a proving key generated under another thread count does not produce proofs the baseline verifying key accepts",
+                        json!({"subject": s.desc(), "threads": t, "result": format!("{other:?}")}),
+                    ),
+                }
             }
         }
     }
@@ -342,6 +380,7 @@ pub fn vk_bytes_cases(ctx: &mut Ctx, s: &FamSubject) {
 /// Write in A, read in B, for verifying and proving keys.
 pub fn roundtrip_matrix(ctx: &mut Ctx, s: &FamSubject) -> (Vec<(String, VK)>, Vec<(String, PK)>) {
     let base = vk_image(&s.vk);
+    let base_full = pk_full_digest(&s.pk);
     let mut vks = vec![];
     let mut pks = vec![];
     for (ai, (fa, an)) in FORMATS.iter().enumerate() {
@@ -399,6 +438,9 @@ pub fn roundtrip_matrix(ctx: &mut Ctx, s: &FamSubject) -> (Vec<(String, VK)>, Ve
                         }
                         if vk_image(p2.get_vk()) != base {
                             ctx.oracle_fail(&format!("pk-roundtrip-vk-identity:{pair}"), "the verifying key inside a reloaded proving key has another identity", json!({"subject": s.desc(), "pair": pair}));
+                        }
+                        if pk_full_digest(&p2) != base_full {
+                            ctx.oracle_fail(&format!("pk-roundtrip-derived:{pair}"), "the parts a reloaded proving key recomputes (l0, l_last, l_active_row, polys, cosets, evaluator) differ from the generated key's", json!({"subject": s.desc(), "pair": pair}));
                         }
                         pks.push((pair.clone(), p2));
                     }
